@@ -1,10 +1,12 @@
 (* Case checker for C11, character-map part (driver c11cmap).
    kind 1 = model and implementation differ (correspondence),
-   kind 2 = the implementation's own output violates the specification (oracle),
-   kind 10 = oracle failure confined to format 4 glyph-array entries equal to 0 (known finding F13a),
-   kind 11 = oracle failure on a subtable whose segments/groups are not sorted, disjoint and below 2^24 (F13b),
-   kind 12 = oracle failure confined to runes reached through a legacy remapper (F13c). *)
-From TV Require Export Model.Cmap Spec.Cmap Check.C11Set.
+   kind 2 = the implementation's own output violates the specification (oracle).
+   The former kinds 10 (format 4 glyph-array entries equal to 0), 11 (segments/groups not sorted and disjoint) and
+   12 (runes reached through a legacy remaper) are repaired in the library (`fix:` commits): the subtables are driven
+   through the sanitizing constructors ProcessCmap uses (sanitizeCmap4, newCmap12/13) and every mismatch is a plain
+   oracle failure.  The legacy remapers are specified on non-negative runes (a rune is a code point). *)
+From TV Require Export Model.Cmap Model.CmapSel Spec.Cmap Check.C11Set.
+From TV Require Import Gen.C11Tables.
 
 Definition seg4t := (Z * Z * Z * option (list Z))%type.
 Inductive cmdesc :=
@@ -28,28 +30,25 @@ Definition case := ccase.
 Definition to_seg4 (t : seg4t) : seg4 := let '(a, b, c, d) := t in mkSeg4 a b c d.
 Definition to_grp (t : Z * Z * Z) : grp := let '(a, b, c) := t in mkGrp a b c.
 
-Definition m_iter (d : cmdesc) : res (list (Z * Z)) :=
+(* the subtable as ProcessCmap would hold it: resolved format 4 segments go through sanitizeCmap4, raw groups
+   through sanitizeCmapGroups; remap: -1 none, 0 symbol, 1/2 legacy arabic *)
+Definition m_base (d : cmdesc) : mcmap :=
   match d with
-  | D4 s => iter4 (map to_seg4 s)
-  | D12 g => Ok (iter12 (map to_grp g))
-  | D13 g => Ok (iter13 (map to_grp g))
-  | D6 f e _ => Ok (iter6 (mkCmap6 f e))
-  | D0 m => Ok m
+  | D4 s => M4 (sanitize4 (map to_seg4 s))
+  | D12 g => M12 (sanitize12 (map to_grp g))
+  | D13 g => M13 (sanitize12 (map to_grp g))
+  | D6 f e _ => M6 (mkCmap6 f e)
+  | D0 m => M0 m
   end.
-Definition m_lookup0 (d : cmdesc) (r : Z) : res (Z * bool) :=
-  match d with
-  | D4 s => lookup4 (map to_seg4 s) r
-  | D12 g => lookup12 (map to_grp g) r
-  | D13 g => lookup13 (map to_grp g) r
-  | D6 f e _ => lookup6 (mkCmap6 f e) r
-  | D0 m => match assoc m r with Some g => Ok (g, true) | None => Ok (0, false) end
-  end.
-Definition m_lookup (d : cmdesc) (remap : Z) (r : Z) : res (Z * bool) :=
-  if remap =? 0 then remap_symbol (m_lookup0 d) r else m_lookup0 d r.
+Definition m_cmap (d : cmdesc) (remap : Z) : mcmap :=
+  if remap =? 0 then MSym (m_base d) else if remap =? 1 then MSimp (m_base d)
+  else if remap =? 2 then MTrad (m_base d) else m_base d.
+Definition m_iter (d : cmdesc) (remap : Z) : res (list (Z * Z)) := miter arabicPUASimp arabicPUATrad (m_cmap d remap).
+Definition m_lookup (d : cmdesc) (remap : Z) (r : Z) : res (Z * bool) := mlookup arabicPUASimp arabicPUATrad (m_cmap d remap) r.
 Definition m_ranges (d : cmdesc) : option (list (Z * Z)) :=
   match d with
-  | D4 s => Some (rune_ranges4 (map to_seg4 s))
-  | D12 g | D13 g => Some (rune_ranges12 (map to_grp g))
+  | D4 s => Some (rune_ranges4 (sanitize4 (map to_seg4 s)))
+  | D12 g | D13 g => Some (rune_ranges12 (sanitize12 (map to_grp g)))
   | D6 f e true => Some (rune_ranges6 (mkCmap6 f e))
   | _ => None
   end.
@@ -97,11 +96,10 @@ Definition corr_ok (c : case) : bool :=
   | CMap d remap remapped iter iter_lk0 probes ranger ranges covpages covpos =>
       let iter_lk := expand_lk iter iter_lk0 in
       let cov := expand_cov (length iter + length probes) covpos in
-      res_eqb pairs_eqb (m_iter d) iter
-      && ((0 <? remap) ||
-          (forallb (fun p => lk_eqb (m_lookup d remap (fst (fst p))) (snd (fst p)) (snd p)) probes
-           && forallb (fun p => let '((r, g), (g', ok)) := p in lk_eqb (m_lookup d remap r) g' ok) (combine iter iter_lk)
-           && (length iter =? length iter_lk)%nat))
+      res_eqb pairs_eqb (m_iter d remap) iter
+      && (forallb (fun p => lk_eqb (m_lookup d remap (fst (fst p))) (snd (fst p)) (snd p)) probes
+          && forallb (fun p => let '((r, g), (g', ok)) := p in lk_eqb (m_lookup d remap r) g' ok) (combine iter iter_lk)
+          && (length iter =? length iter_lk)%nat)
       && match (if 0 <=? remap then None else m_ranges d) with   (* the remappers embed the Cmap interface: no RuneRanges *)
          | Some rr => ranger && pairs_eqb rr ranges && rs_is (coverage_from_ranges ranges) covpages
          | None => negb ranger && rs_is (add_all (map fst iter)) covpages
@@ -142,34 +140,11 @@ Definition agree_ok (ex : Z -> bool) (c : case) : bool :=
   | CNew4 _ _ _ _ => true
   end.
 
-Definition zero_entry_rune (d : cmdesc) (r : Z) : bool :=
-  match d with
-  | D4 s => existsb (fun t => let '(a, b, _, ix) := t in
-                              match ix with
-                              | Some l => if (a <=? r) && (r <=? b) then znth 1 l (r - a) =? 0 else false
-                              | None => false
-                              end) s
-  | _ => false
-  end.
-Definition sorted_disjoint (d : cmdesc) : bool :=
-  match d with
-  | D4 s => ranges_ok (map (fun t => let '(a, b, _, _) := t in (a, b)) s)
-  | D12 g | D13 g => ranges_ok (map (fun t => let '(a, b, _) := t in (a, b)) g)
-  | _ => true
-  end.
-Definition case_desc (c : case) : option (cmdesc * Z * list Z) :=
-  match c with CMap d remap remapped _ _ _ _ _ _ _ => Some (d, remap, remapped) | _ => None end.
+Definition case_remap (c : case) : Z :=
+  match c with CMap _ remap _ _ _ _ _ _ _ _ => remap | _ => -1 end.
 
 Definition oracle_kind (c : case) : list nat :=
-  if agree_ok (fun _ => false) c then []
-  else match case_desc c with
-       | Some (d, remap, remapped) =>
-           if negb (sorted_disjoint d) then [11%nat]
-           else if agree_ok (zero_entry_rune d) c then [10%nat]
-           else if (0 <=? remap) && agree_ok (fun r => zero_entry_rune d r || l_mem remapped r) c then [12%nat]
-           else [2%nat]
-       | None => [2%nat]
-       end.
+  if agree_ok (fun r => (0 <=? case_remap c) && (r <? 0)) c then [] else [2%nat].
 
 Fixpoint check_from (i : nat) (cs : list case) : list (nat * nat) :=
   match cs with
